@@ -281,8 +281,10 @@ class WindowGenerator(object):
 
         for first, last in self.firstlast:
             amp = np.ones(last - first)
-            amp[:self.overlap] = 1 if first == 0 else w
-            amp[-self.overlap:] = 1 if last == self.ns else np.flipud(w)
+            if self.overlap > 0:
+                # the head ramp is assigned last so that it wins over the flat tail of a short last window
+                amp[-self.overlap:] = 1 if last == self.ns else np.flipud(w)
+                amp[:self.overlap] = 1 if first == 0 else w
             yield (first, last, amp)
 
     @property
